@@ -731,19 +731,29 @@ def run(prop, tier, replay=None):
         violations.append(Violation('C09', sig, what, {k2: case[k2] for k2 in ('force', 'ops', 'stickmode')}))
 
     # ---- 4. conformance ----
-    conf = {'pre': 0, 'fix': 0, 'both': 0, 'neither': 0, 'truncated': 0}
+    conf = {'pre': 0, 'fix': 0, 'both': 0, 'neither': 0, 'truncated': 0, 'no_behaviour_of_the_matching_model': 0}
+    cls = []
     for rec in records:
         case, out = meta[rec['id']]
         if out.get('truncated'):
             conf['truncated'] += 1
             continue
         oc = _outcome(out)
-        a, b = oc in allowed['pre'].get(rec['id'], ()), oc in allowed['fix'].get(rec['id'], ())
-        conf['both' if a and b else 'pre' if a else 'fix' if b else 'neither'] += 1
-        if not a and not b and len(drift) < 4:
+        cls.append((rec, oc, oc in allowed['pre'].get(rec['id'], ()), oc in allowed['fix'].get(rec['id'], ())))
+    # which variant of the model does this tree follow?  (histories are enumerated from the pre-fix model as well, so that a
+    # reverted fix is exercised; a history that is no behaviour of the matching model at all is not comparable)
+    best = 'fix' if sum(1 for _r, _o, a_, b_ in cls if b_ and not a_) >= sum(1 for _r, _o, a_, b_ in cls if a_ and not b_) else 'pre'
+    for rec, oc, a_, b_ in cls:
+        case, out = meta[rec['id']]
+        if not a_ and not b_ and rec['id'] not in allowed[best]:
+            conf['no_behaviour_of_the_matching_model'] += 1
+            continue
+        conf['both' if a_ and b_ else 'pre' if a_ else 'fix' if b_ else 'neither'] += 1
+        if not a_ and not b_ and len(drift) < 4:
             drift.append('real pool history %s (force=%s, stick=%s) gives %s; PoolLife.tla (code as is): %s; (fixed): %s'
                          % (case['ops'], case['force'], case.get('stickmode'), oc, sorted(allowed['pre'].get(rec['id'], ()))[:3],
                             sorted(allowed['fix'].get(rec['id'], ()))[:3]))
+    conf['matching_model'] = best
     ev.cov['conformance_detail'] = conf
     ev.cov['traces_validated_against_impl'] = conf['pre'] + conf['fix'] + conf['both']
     ev.cov['evaluations'] = sum(len(r_['obs']['steps']) for r_ in records)
